@@ -42,5 +42,8 @@ CallOK(arch, ld, c) ==
     CASE c.op = "getBlock" -> BlockOK(arch, ld, c)
       [] c.op = "getTransaction" -> TxOK(arch, ld, c)
       [] c.op = "getBlockTime" -> BlockTimeOK(arch, ld, c)
+      \* fetch by CID through one epoch: a stored CID (sig >= 0: its section index) yields exactly that object's bytes,
+      \* any other CID never yields bytes
+      [] c.op = "getNode" -> IF c.sig >= 0 THEN c.status = "ok" /\ c.txsame ELSE c.status # "ok"
       [] OTHER -> FALSE
 =============================================================================
